@@ -6,7 +6,6 @@ import (
 
 	"golang.org/x/tools/go/ssa"
 
-	"muxlint/internal/an"
 )
 
 // combinators.go — C13.R10: the And / Or matcher combinators, evaluated symbolically (symeval.go).
@@ -20,25 +19,20 @@ import (
 //	And: member accepts → every outcome is true; member rejects → every outcome that called a member is false
 //	Or : member rejects → every outcome is false; member accepts → every outcome that called a member is true
 //
-// and the *Func variants hand their functions, converted, to the combinator of the same name.
+// and the *Func variants are evaluated in the same way (their members are the converted functions).
 func ruleCombinators(c *Ctx, rule string) {
 	c.R.Rule(c.R.Property+"."+rule, 4, "AndMatcher accepts iff every member accepts, OrMatcher iff some member accepts; members are asked in list order with the request and the context of the call")
 	for _, comb := range []struct {
 		key string
 		and bool
-	}{{"mux.AndMatcher", true}, {"mux.OrMatcher", false}} {
+	}{{"mux.AndMatcher", true}, {"mux.OrMatcher", false}, {"mux.AndMatcherFunc", true}, {"mux.OrMatcherFunc", false}} {
 		ctor := c.P.MustFunc(comb.key)
 		var bad []string
 		n := 0
 		for _, accepts := range []bool{true, false} {
 			accepts := accepts
 			se := &symEval{c: c}
-			se.elem = func(slice string) string {
-				if slice == "MS" {
-					return "MEMBER"
-				}
-				return ""
-			}
+			se.elem = func(slice string) string { return "MEMBER" } // whatever list the members were put into
 			se.truth = func(e string) int {
 				if e == "ACCEPTS" {
 					return pm(accepts)
@@ -123,17 +117,5 @@ func ruleCombinators(c *Ctx, rule string) {
 		}
 		what := ifelse(comb.and, "true iff every member accepts", "true iff some member accepts")
 		c.R.Add(rule, comb.key, "verdict:"+ifelse(comb.and, "all", "any")+"-members", c.P.Pos(ctor.Pos()), len(msgs) == 0, ifelse(len(msgs) == 0, fmt.Sprintf("%s (%d paths evaluated)", what, n), "the combinator is not "+what+": "+strings.Join(msgs, "; ")))
-	}
-	for _, v := range []struct{ key, target string }{{"mux.AndMatcherFunc", "mux.AndMatcher"}, {"mux.OrMatcherFunc", "mux.OrMatcher"}} {
-		f := c.P.MustFunc(v.key)
-		good := true
-		got := ""
-		for _, r := range an.Returns(f) {
-			got = c.O.Of(r.Results[0]).String()
-			if !strings.HasPrefix(got, "call<"+v.target+">(") || !(strings.Contains(got, "param:f") || strings.Contains(got, "p:f")) {
-				good = false
-			}
-		}
-		c.R.Add(rule, v.key, "forwards-to:"+v.target, c.P.Pos(f.Pos()), good, ifelse(good, got, "returns "+got+", not "+v.target+" of its functions"))
 	}
 }
